@@ -11,6 +11,10 @@ def run(ctx):
     rec, out = vlib.tlc_mc(ctx, 'Plan_Mutate', 'Plan_Mutate', workers=1)
     exp = ctx.path('plan.out')
     open(exp, 'w').write(out)
+    from checks import histcommon
+    histcommon.plan_multi(ctx)                      # inputs with several offenders of one kind, linted as they are
+    vlib.GOENV['VERIF_MULTI_FULL'] = '1'
+    vlib.GOENV['VERIF_MULTI_SKIP'] = 'kueku'
     d = vlib.drive(ctx, exe, 'mutate', env={'VERIF_EXPORT': exp}, timeout=7000)
     s = json.load(open(os.path.join(d, 'summary.json')))
     rejects, lines = vlib.tlc_trace(ctx, 'Trace_NoPanic', os.path.join(d, 'mutate.ndjson'), shards=4)
@@ -35,10 +39,17 @@ def run(ctx):
         vlib.report(ctx, '%s:%s' % (who, why), '%s: %s on %s mutated by %s at %s (%s node)%s; %d such mutants' % (
             who, why, e['base'], e['op'], e['path'], e['class'], (' panic=' + e.get('panicMsg', '')[:160]) if e.get('escaped') else '', len(evs)),
             dict(kind='mutate', base=e['base'], path=e['path'], op=e['op'], der_b64=e.get('der')))
-    cov = dict(evaluations=s['parsed'], distinct_nontrivial=s['triples'],
+    # names planted as common name / SAN entry on templates (the input family that reaches the common-name branches of the rules)
+    d3 = vlib.drive(ctx, exe, 'plant')
+    planted = json.load(open(os.path.join(d3, 'summary.json')))['planted']
+    for pnc in (json.load(open(os.path.join(d3, 'panics.json'))) or [])[:10]:
+        who = pnc.get('lint', 'run')
+        vlib.report(ctx, '%s:%s' % (who, 'recovered-panic' if 'recovered' in pnc else 'escaped-or-hung'), '%s on %s: %s' % (who, pnc['id'], pnc.get('recovered', pnc.get('escaped', 'hung'))[:200]),
+                    dict(kind='plant', id=pnc['id'], der_b64=pnc.get('der')))
+    cov = dict(evaluations=s['parsed'] + planted, distinct_nontrivial=s['triples'],
                rule='evaluation = one parser-accepted mutant linted with the whole registry; mutation space = Plan_Mutate.tla (17 node classes x 22 operators) applied at every TLV node - also '
                     'inside extension values and keys - of carrier objects chosen so that every lint has a carrier on which it is not NA; non-trivial = distinct (node class, operator, lint) with the lint not NA',
-               samples=[s['sample']], mutants=s['mutants'], carriers=s['carriers'], parser_panics=s['parser_panics'],
+               samples=[s['sample']], planted_inputs=planted, mutants=s['mutants'], carriers=s['carriers'], parser_panics=s['parser_panics'],
                trusted_base=['zcrypto x509 / x-crypto ocsp parsers'])
     return vlib.finish(ctx, 'exploration', cov, ASSUME)
 
@@ -49,6 +60,9 @@ def replay(ctx, rp):
     rec, out = vlib.tlc_mc(ctx, 'Plan_Mutate', 'Plan_Mutate', workers=1)
     exp = ctx.path('plan.out')
     open(exp, 'w').write(out)
+    from checks import histcommon
+    histcommon.plan_multi(ctx)
+    vlib.GOENV['VERIF_MULTI_FULL'] = '1'
     d2 = vlib.drive(ctx, exe, 'mutate', extra=['-only', r['base']], env={'VERIF_EXPORT': exp, 'VERIF_MUTATION': '%s|%s' % (r['path'], r['op'])})
     rj2, l2 = vlib.tlc_trace(ctx, 'Trace_NoPanic', os.path.join(d2, 'mutate.ndjson'), shards=1)
     for (ln, p) in rj2:
